@@ -1,8 +1,9 @@
 import re
+from collections import defaultdict
 from pathlib import Path
-from typing import List, Optional, Tuple, Set
+from typing import Dict, List, Optional, Tuple, Set
 
-from tealer.teal.instructions.instructions import Instruction, Label
+from tealer.teal.instructions.instructions import Instruction, Label, Callsub
 from tealer.teal.instructions.parse_instruction import parse_line
 from tealer.teal.teal import Teal
 from tealer.utils.output import CFGDotConfig, full_cfg_to_dot
@@ -90,6 +91,23 @@ def _is_match(current_instruction: Optional[Instruction], regex: List[Instructio
     return True
 
 
+def _successors(ins: Instruction) -> List[Instruction]:
+    """Instruction-level successors of ins.
+
+    ins.next of a callsub only has the instruction executed after the subroutine returns: the
+    first instruction of the called subroutine is a successor as well.
+
+    Args:
+        ins: the instruction.
+
+    Returns:
+        The instructions that can be executed right after ins.
+    """
+    if isinstance(ins, Callsub):
+        return ins.next + [ins.called_subroutine.entry.entry_instr]
+    return ins.next
+
+
 def _find_instructions(
     current_instruction: Instruction,
     regex: List[Instruction],
@@ -122,7 +140,7 @@ def _find_instructions(
         matches.append(match)
         reaches = True
 
-    for next_ins in current_instruction.next:
+    for next_ins in _successors(current_instruction):
 
         if next_ins in covered:
             continue
@@ -163,12 +181,16 @@ def match_regex(contract: Teal, regex: Regex) -> Tuple[List[List[Instruction]], 
     # match: an instruction whose way to a match goes through an already visited instruction (the
     # second branch into a join, the body of a loop) is missed. Complete the set by walking
     # backwards from the matches over the instructions reachable from the label.
+    predecessors: Dict[Instruction, List[Instruction]] = defaultdict(list)
+    for ins in visited:
+        for next_ins in _successors(ins):
+            predecessors[next_ins].append(ins)
     worklist = [match[0] for match in matches]
     reaches_match: Set[Instruction] = set()
     while worklist:
         ins = worklist.pop()
-        for prev_ins in ins.prev:
-            if prev_ins in visited and prev_ins not in reaches_match:
+        for prev_ins in predecessors[ins]:
+            if prev_ins not in reaches_match:
                 reaches_match.add(prev_ins)
                 worklist.append(prev_ins)
     covered |= reaches_match
